@@ -109,6 +109,26 @@ def replay_file(module, path):
     return case, res
 
 
+def run_shrink(args, timeout):
+    """shrink pass for one bucket in a fresh process; None if it does not finish in time (the unshrunk case is kept)"""
+    ctx = mp.get_context("spawn")
+    r, w = ctx.Pipe(duplex=False)
+    p = ctx.Process(target=core.shrink_entry, args=(args, w))
+    p.start()
+    w.close()
+    out = None
+    try:
+        if r.poll(timeout):
+            out = r.recv()
+    except (EOFError, OSError):
+        out = None
+    if p.is_alive():
+        p.kill()
+    p.join(10)
+    r.close()
+    return out
+
+
 def run_jobs(jobs, nproc, cap):
     """one fresh spawned process per shard, at most nproc at a time; a worker that dies without reporting (killed from
     outside, out of memory) is re-run once, then reported as a harness error -- never waited for"""
@@ -251,15 +271,9 @@ def check(pid, tier):
         lst.sort(key=lambda x: x[0])
         sz, case, msg, shard, sseed = lst[0]
         if do_shrink and bi < 4:
-            try:
-                with ctx.Pool(processes=1) as pool:
-                    r = pool.apply_async(core.shrink_worker, (("vfw.props.%s" % pid, shard, sseed,
-                                                               shard_n.get(shard, 1000), tier, bucket, None),))
-                    got = r.get(timeout=240)
-                if got is not None and core.case_size(got[0]) <= sz:
-                    case, msg = got
-            except Exception:
-                pass
+            got = run_shrink(("vfw.props.%s" % pid, shard, sseed, shard_n.get(shard, 1000), tier, bucket, None), 240)
+            if got is not None and core.case_size(got[0]) <= sz:
+                case, msg = got
         new_violations.append((bucket, case, msg, None))
 
     exit_code = 0
